@@ -2,6 +2,8 @@ CONSTANTS
   Keys = {"k1", "k2"}
   Vals = {1, 2}
   MaxWrites = 3
+  MinWin = 1
+  MaxWin = 0
   SimLen = 100
 INIT GInit
 NEXT GNext
